@@ -53,7 +53,7 @@ def gen_cases(tier, seed):
 
 def required(tier):
     return {"msg.decided": 5000, "msg.class.single_idx_ge_nout": 100, "msg.class.single_idx_lt_nout": 100,
-            "msg.class.acp": 1000, "msg.class.none": 500, "msg.class.nonempty_scriptsig": 2000, "vector.ok": 1,
+            "msg.class.acp": 1000, "msg.class.library_built_arguments": 100, "msg.class.float_amount": 300, "msg.class.none": 500, "msg.class.nonempty_scriptsig": 2000, "vector.ok": 1,
             "history.steps": 500, "history.same_prevouts_changed_rest": 300, "e2e.signed_decided": 60, "signmsg.signatures_judged": 60, "signmsg.inconsistent_request_refused": 20, "e2e.inputs_valid": 60, "e2e.short_r": 2, "e2e.shared_txid": 20,
             "contract:witness_message.bip143": 60}
 
@@ -114,6 +114,21 @@ def run_case(kind, params, ctx):
          "witness": None}
     txins = [txref.ser_vin(i) for i in t["vin"]]
     txouts = [txref.ser_vout(o) for o in t["vout"]]
+    lib_built = params["salt"] % 2 == 0
+    if lib_built:
+        # the arguments as a caller really produces them: with the library's own constructors (outpoint/txin/txout and
+        # compact_size_uint(len(script)) + script) - what they emit is part of what the message is built from
+        import bits.tx as btx
+        import bits.utils as bu_
+        try:
+            txins = [bytes(btx.txin(btx.outpoint(bytes.fromhex(i["txid"]), i["vout"]), bytes.fromhex(i["script"]), sequence=i["sequence"].to_bytes(4, "little"))) for i in t["vin"]]
+            txouts = [bytes(btx.txout(o["value"], bytes.fromhex(o["script"]))) for o in t["vout"]]
+        except ContractViolation as cv:
+            if cv.prop == "C11":
+                raise
+            ctx.count("msg.observation_of_other_property")
+            return
+        ctx.count("msg.class.library_built_arguments")
     idxs = range(n_in) if params["all_idx"] else [rng.randrange(n_in)]
     for idx in idxs:
         for flag in FLAGS:
@@ -133,8 +148,23 @@ def run_case(kind, params, ctx):
                 ctx.count("msg.class.nonempty_scriptsig")
             ctx.count("msg.decided")
             ctx.seen("msg", (params["salt"], idx, flag))
+            amt_arg = amount
+            if amount < 2 ** 53 and flag in (2, 0x83):
+                amt_arg = float(amount)         # the parameter is typed Union[int, float] and documented in satoshis: 6e8 means 600000000 satoshis
+                ctx.count("msg.class.float_amount")
             try:
-                got = bytes(wm(txins, idx, amount, cs.encode(len(sc)) + sc, txouts, version=t["version"], locktime=t["locktime"], sighash_flag=flag))
+                sc_arg = cs.encode(len(sc)) + sc
+                if lib_built:
+                    try:
+                        sc_arg = bytes(bu_.compact_size_uint(len(sc))) + sc
+                    except ContractViolation as cv:
+                        if cv.prop == "C11":
+                            raise
+                        ctx.count("msg.observation_of_other_property")
+                        continue
+                got = bytes(wm(txins, idx, amt_arg, sc_arg, txouts, version=t["version"], locktime=t["locktime"], sighash_flag=flag))
+            except ContractViolation:
+                raise
             except Exception as e:
                 ctx.violation(f"raises/{cls}", f"witness_message raised {type(e).__name__}: {e} (n_in={n_in}, n_out={n_out}, idx={idx}, flag={flag:#x})")
                 continue
